@@ -781,6 +781,10 @@ impl Disk {
             if terminus || null_terminus {
                 return Ok((parent_info,curr));
             }
+            if !curr.directory {
+                // a path does not lead through a file: its clusters are not a directory
+                return Err(Box::new(Error::FileNotFound));
+            }
             let new_dir = self.get_directory(&curr.cluster1)?;
             files = new_dir.build_files(self.typ)?;
             parent_info = Some(curr);
@@ -830,6 +834,10 @@ impl Disk {
         }
         debug!("write {} to {}",new_name,parent_path);
         if let Ok((_maybe_grandparent,parent)) = self.goto_path(&parent_path) {
+            if !parent.directory {
+                // the parent of a new file or directory has to be a directory
+                return Err(Box::new(Error::FileNotFound));
+            }
             let mut search_dir = self.get_directory(&parent.cluster1)?;
             let files = search_dir.build_files(self.typ)?;
             return match directory::get_file(&new_name, &files) {
